@@ -105,6 +105,8 @@ impl TxBatchBuilder {
             self.asset_groups
                 .set_min_ada_for_tx(&mut current_tx_proposal)?;
             current_tx_proposal.add_last_ada_to_last_output()?;
+            self.asset_groups
+                .check_last_output_min_ada(&current_tx_proposal)?;
             self.tx_proposals.push(current_tx_proposal);
         }
 
